@@ -228,7 +228,7 @@ def sweep_all_lengths(ctx, FP, rng, certified):
 
 
 def run(tier, seed):
-    ctx = core.Ctx(PROP, tier, seed, "translation_validation", ["C18"])
+    ctx = core.Ctx(PROP, tier, seed, "translation_validation", ["C18", "C18b"])
     ctx.axioms = core.audit(ctx.modules)
     import pyqsp.phases as FP
     rng = ctx.rng
@@ -260,7 +260,7 @@ def run(tier, seed):
 def replay(path):
     import json
     c = json.load(open(path))
-    ctx = core.Ctx(PROP, "quick", 0, "translation_validation", ["C18"])
+    ctx = core.Ctx(PROP, "quick", 0, "translation_validation", ["C18", "C18b"])
     import pyqsp.phases as FP
     one(ctx, FP, c["d"], c["delta"])
     for sig, what, p, _ in ctx.violations:
